@@ -176,3 +176,49 @@ func Harness_C18_strlist() {
 	zzverif.Assert("strlist-chunked-same", n1 == n0 && len(l1) == 3 && l1[0] == "ab" && l1[1] == "" && l1[2] == "c")
 	zzverif.Reach("end")
 }
+
+func Harness_C18_floatlist() {
+	b := NewFloatListEncoder().Encode([]float64{1.5, -2})
+	c := make([]byte, len(b))
+	copy(c, b)
+	n0, l0, err0 := NewFloatListDecoder(false).Read(bytes.NewReader(c))
+	zzverif.Assert("whole-stream-decodes", err0 == nil && n0 == int64(len(c)) && len(l0) == 2)
+	n1, l1, err1 := NewFloatListDecoder(false).Read(c18reader(c))
+	zzverif.Assert("floatlist-chunked-no-error", err1 == nil)
+	if err1 != nil {
+		return
+	}
+	zzverif.Assert("floatlist-chunked-same", n1 == n0 && len(l1) == 2 && l1[0] == 1.5 && l1[1] == -2)
+	zzverif.Reach("end")
+}
+
+func Harness_C18_profile() {
+	one := 1.5
+	p := &TableProfile{
+		RowsCount: 2,
+		Columns: []*ColumnProfile{
+			{Name: "a", NACount: 1, Min: &one, MaxStrLen: 3, TopValues: ValueCounts{{Value: "x", Count: 2}}, Percentiles: []float64{1, 2}},
+		},
+	}
+	buf := bytes.NewBuffer(nil)
+	p.WriteTo(buf)
+	b := buf.Bytes()
+	p0 := &TableProfile{}
+	n0, err0 := p0.ReadFrom(bytes.NewReader(b))
+	zzverif.Assert("whole-stream-decodes", err0 == nil && n0 == int64(len(b)) && len(p0.Columns) == 1)
+	p1 := &TableProfile{}
+	n1, err1 := p1.ReadFrom(c18reader(b))
+	zzverif.Assert("profile-chunked-no-error", err1 == nil)
+	if err1 != nil {
+		return
+	}
+	ok := n1 == n0 && p1.RowsCount == 2 && len(p1.Columns) == 1
+	if ok {
+		c := p1.Columns[0]
+		ok = c.Name == "a" && c.NACount == 1 && c.Min != nil && *c.Min == 1.5 && c.MaxStrLen == 3 &&
+			len(c.TopValues) == 1 && c.TopValues[0].Value == "x" && c.TopValues[0].Count == 2 &&
+			len(c.Percentiles) == 2 && c.Percentiles[0] == 1 && c.Percentiles[1] == 2
+	}
+	zzverif.Assert("profile-chunked-same", ok)
+	zzverif.Reach("end")
+}
